@@ -25,7 +25,7 @@ def run_impl(lines):
     fd, path = tempfile.mkstemp(suffix=".scn", dir=SCRATCH)
     with os.fdopen(fd, "w") as f:
         f.write("\n".join(lines) + "\n")
-    env = dict(os.environ, ASAN_OPTIONS="detect_leaks=0")
+    env = dict(os.environ, ASAN_OPTIONS="detect_stack_use_after_return=1:detect_leaks=0")
     try:
         a = subprocess.run([HARNESS, path], stdout=subprocess.PIPE, stderr=subprocess.PIPE, text=True, timeout=75, env=env)
         return a.stdout, a.stderr, a.returncode
